@@ -124,6 +124,9 @@ def run(ck):
 
     _common.import_results(ck, _C06, "4", "register_dispatcher", "1")
     _common.import_results(ck, _C06, "4", "Async::new", "2")
+    from props import C01 as _C01
+
+    _common.import_results(ck, _C01, "4", "vacant_entry", "1")
 
     # ---- clause 4: Generic records poller/token only after success -----------------------------------------
     for q, callee in (("<Generic as EventSource>::register", "register"), ("<Generic as EventSource>::reregister", "reregister")):
